@@ -85,6 +85,8 @@ MeshSig(r) ==
          touched_in_two_corners |-> at /\ \E f \in Selected(r) : Touches(r, f) /\ p \in Ran(r.flat[f]),
          \* a selected face that the parallel only touches, at the interior extreme of an edge (tangency)
          touched_by_tangency |-> at /\ \E f \in Selected(r) : Touches(r, f) /\ p \notin Ran(r.corners[f]),
+         \* a selected face with a bulging edge whose poleward end is exactly on the parallel (the edge is crossed once more)
+         end_on_parallel_of_bulging_edge |-> at /\ \E f \in Selected(r) : p \in Ran(r.reenter[f]),
          \* a face that is crossed AND has a corner or a tangency exactly on the parallel
          crossed_with_extra_contact |-> at /\ \E f \in Selected(r) : Crosses(r, f) /\ (p \in Ran(r.corners[f]) \/ p \in Ran(r.tops[f])) ]
 
